@@ -4,6 +4,7 @@ import random
 
 import vcommon as v
 import concengine as ce
+import scengine as sc
 
 PROP = "C07"
 INV = ["Linearizable"]
@@ -44,6 +45,69 @@ def collect(prop, results, rd, inv, viol, st):
     return ok
 
 
+def storeconc_part(tier, seed, rd, fxv, viol, st):
+    """StoreConc.tla: every interleaving of the program families on the design model (TLC), the model's
+    behaviours judged by LinTrace, and their schedules replayed on the real store (spec -> impl)."""
+    rng = random.Random(seed + 77)
+    pairs = ce.pair_family()
+    fam = sc.chain_family() + ce.aba_family()
+    mem = ce.mem_family()
+    if tier == "quick":
+        rng.shuffle(pairs)
+        fam += pairs[:500] + [x for x in mem if len(x[1]["threads"]) == 2]
+    else:
+        fam += pairs + mem + ce.triple_family(rng, 25)
+    mprogs, src = [], {}
+    for name, p in fam:
+        m = sc.model_program(name, p)
+        if m and name not in src:
+            mprogs.append(m)
+            src[name] = p
+    r, beh = sc.run_model(rd, "sc", mprogs, workers=12, timeout=3000)
+    info = {"programs": len(mprogs), "model_states": r.distinct, "model_behaviours": len(beh),
+            "model_wall_s": round(r.wall, 1), "design_violation": None}
+    if r.timeout or (r.error and not r.violation):
+        raise v.ToolError("StoreConc model checking failed: %s %s" % (r.error, r.out[-600:]))
+    if r.violation:
+        # a design-level counterexample: recorded; the verdict comes from the replay on the real store
+        info["design_violation"] = r.violation
+    if not beh:
+        raise v.ToolError("StoreConc produced no behaviour: " + r.out[-600:])
+    sel = sc.sample(beh, 24000 if tier == "quick" else 2000000, seed)
+    # (a) the model's own behaviours, judged by the oracle that judges the implementation
+    files = sc.write_model_histories(rd, "sc", mprogs, sel, chunk=4000)
+    rejected = 0
+    for f, rr in zip(files, v.parallel_map(lambda f: ce.validate(rd, f, INV + ["SweepSafe", "MemBound", "NotHidden"]), files, jobs=10)):
+        if rr.violation and rr.violation.startswith("invariant"):
+            rejected += 1
+            info.setdefault("model_rejections", []).append(ce.brief(ce.explain(rr, f)[2]))
+        elif rr.violation or rr.error:
+            raise v.ToolError("LinTrace on model behaviours: %s %s" % (rr.violation or rr.error, rr.out[-500:]))
+    info["model_histories_judged"] = len(sel)
+    info["model_history_files_rejected"] = rejected
+    # (b) the same behaviours as schedules on the real store
+    items = [(src[b["p"]], b) for b in sel]
+    res = sc.replay(fxv, rd, "sc", items)
+    dev = {}
+    examples = []
+    conform = 0
+    for g in res:
+        for (p, b), got in zip(g["group"], g["got"]):
+            d = sc.compare(b, got)
+            if d:
+                dev[",".join(d)] = dev.get(",".join(d), 0) + 1
+                if len(examples) < 5:
+                    examples.append({"program": b["p"], "deviation": d, "schedule": [[h["t"], h["at"]] for h in b["h"] if h["e"] == "step"],
+                                     "arrived": got.get("arrivals")})
+            else:
+                conform += 1
+        del g["group"]
+    info.update({"replayed": len(items), "conforming": conform, "deviations": dev, "deviation_examples": examples})
+    # the verdict on what the real store did is LinTrace's
+    collect(PROP, res, rd, INV, viol, st)
+    return info
+
+
 def run(tier, seed):
     rd = v.run_dir("c07")
     fxv = v.build_harness()
@@ -78,6 +142,7 @@ def run(tier, seed):
                                           "--cache", str(i % 2)]))
     fres = ce.run_free(fxv, rd, free)
     collect(PROP, fres, rd, INV, viol, st)
+    scinfo = storeconc_part(tier, seed, rd, fxv, viol, st)
     sample = []
     if ok:
         for line in open(ok[0]["trace"]):
@@ -96,6 +161,7 @@ def run(tier, seed):
                 "granularity with at most 2 (quick) or 3 preemptions; plus free-running histories of 2-4 "
                 "threads (memory-only and persistent with the flusher running). Distinct by (program, schedule).",
         "samples": sample, "programs": len(fam), "stalled_schedules": st["stalls"], "events": st["events"],
+        "storeconc": scinfo,
     }
     return {"level": "model_checking", "coverage": cov, "violations": viol,
             "assumptions": ["publication events are emitted inside the guarded sections (hook), so their order "
